@@ -1,1 +1,2 @@
 pub mod c18;
+pub mod c17;
